@@ -135,3 +135,18 @@ Lemma manh_cons : forall x y a b, manh (x :: a) (y :: b) = Z.abs (x - y) + manh 
 Proof.
   intros. unfold manh. rewrite !(plain_sum Z 0 Z.add) by (intros; lia). cbn [combine map sum fold_right fst snd]. reflexivity.
 Qed.
+
+(** pre-normalising and taking [1 - dot] is the cosine distance [1 - dot / (|a| |b|)] *)
+From Coq Require Import QArith.
+Lemma dotq_scale : forall na nb a b, ~ na == 0 -> ~ nb == 0 ->
+  (dotq (scaleq na a) (scaleq nb b) == dotq a b / (na * nb))%Q.
+Proof.
+  intros na nb a. induction a as [|x a IH]; intros b Ha Hb.
+  - cbn [scaleq map dotq]. field. split; assumption.
+  - destruct b as [|y b]; cbn [scaleq map dotq].
+    + field. split; assumption.
+    + fold (scaleq na a). fold (scaleq nb b). rewrite IH by assumption. field. split; assumption.
+Qed.
+Lemma cosine_prenorm_l : forall na nb a b, ~ na == 0 -> ~ nb == 0 ->
+  (1 - dotq (scaleq na a) (scaleq nb b) == 1 - dotq a b / (na * nb))%Q.
+Proof. intros. rewrite dotq_scale by assumption. reflexivity. Qed.
